@@ -268,7 +268,48 @@ def _computed_name_patterns(repo):
 _PURE_ROOTS = {"np", "numpy", "math"}
 
 
+_PURE_CTORS = None
+
+
+def _pure_constructors(repo):
+    """Classes of the package whose construction touches nothing but the new object: `__init__` (and no `__new__`, no
+    metaclass, no base with an impure one) only stores into `self` and calls `setattr(self, ...)` / `super().__init__`.
+    `Body(...)` is one; `Frame(...)`, `Center(...)`, `Orientation(...)`, `Form(...)` register themselves and are not."""
+    out = set()
+    for m in repo.modules.values():
+        for c in m.classes.values():
+            ok = True
+            for k in repo.mro(c) if hasattr(repo, "mro") else [c]:
+                if "__new__" in k.methods:
+                    ok = False
+                init = k.methods.get("__init__")
+                if init is None:
+                    continue
+                for n in ast.walk(init.node):
+                    if isinstance(n, (ast.Assign, ast.AugAssign)):
+                        for t in (n.targets if isinstance(n, ast.Assign) else [n.target]):
+                            root = t
+                            while isinstance(root, (ast.Attribute, ast.Subscript)):
+                                root = root.value
+                            if isinstance(t, (ast.Attribute, ast.Subscript)) and not (isinstance(root, ast.Name) and root.id == "self"):
+                                ok = False
+                    elif isinstance(n, ast.Call):
+                        f = ast.unparse(n.func)
+                        if f == "setattr" and n.args and isinstance(n.args[0], ast.Name) and n.args[0].id == "self":
+                            continue
+                        if f in ("super().__init__", "isinstance", "len", "float", "int", "str", "ValueError", "TypeError", "kwargs.items", "kwargs.get", "kwargs.pop"):
+                            continue
+                        ok = False
+                    elif isinstance(n, (ast.Global, ast.Nonlocal)):
+                        ok = False
+            if ok and not c.node.keywords and len(c.node.bases) <= 1 and all(isinstance(b, ast.Name) for b in c.node.bases):
+                out.add(c.name)
+    return out
+
+
 def _expr_effect_free(n):
+    if isinstance(n, ast.Call) and isinstance(n.func, ast.Name) and _PURE_CTORS and n.func.id in _PURE_CTORS:
+        return all(_expr_effect_free(a) for a in n.args) and all(_expr_effect_free(kw.value) for kw in n.keywords)
     if isinstance(n, (ast.Constant, ast.Name)):
         return True
     if isinstance(n, ast.Attribute):
@@ -297,6 +338,13 @@ def _expr_effect_free(n):
 def _binding_is_effect_free(repo, rel, key):
     """Every module- / class-level statement that binds the name of `key` ('<module>#X' or 'K.<class>#X') is a plain
     assignment of an expression that runs no package code."""
+    global _PURE_CTORS
+    if "_e8_pure_ctors" not in repo.__dict__:
+        try:
+            repo.__dict__["_e8_pure_ctors"] = _pure_constructors(repo)
+        except Exception:
+            repo.__dict__["_e8_pure_ctors"] = set()
+    _PURE_CTORS = repo.__dict__["_e8_pure_ctors"]
     name = key.split("#")[-1]
     scope = key.split("#")[0]
     tree = ast.parse(repo.modules[rel].source)
